@@ -2,6 +2,8 @@ open Lifemodel
 (* Line protocol.
    run <a1> ; <a2> ; ...      -> "<events of a1> ; <events of a2> ; ... | <snapshot>"
    log <e1> <e2> ...          -> "legal|illegal complete|incomplete"
+   urun <u1> ; <u2> ; ...     -> "<events of u1> ; ... | tbl=<key>:<sid>,... srv=<0|1>"   (UDP listener: d <key> | s <sid> <action> | sc;
+                                 events <sid>.<event> and <sid>.data)
    actions: add0 add1 | dial <0|1> ok|tb:<e>|ep:<e> | dcb | kern ok|<e> | take <0|1> | call | cl <t> <e|nil> <0|1> | td <t>
             | op <w|v|s|f|x|r> <t> ok:<n>|fail:<e>:<n> | job
    events : open close:<e|nil> dstart drej:<e> dial:<e|ok> cret op:<0|1>:<k>:<done|closed|err:e> *)
@@ -73,8 +75,8 @@ let ev_of s =
 let bs x = if x then "1" else "0"
 
 let snapshot s =
-  Printf.sprintf "closed=%s fdcl=%d sys=%d tears=%d taken=%d jobs=%d pend=%s imm=%s notes=%s dials=%s quiescent=%s"
-    (bs s.closed) s.fdcl s.sys (List.length s.tears) (List.length s.taken) (List.length s.jobs) (bs s.pend) (bs s.imm)
+  Printf.sprintf "closed=%s closeerr=%s fdcl=%d sys=%d tears=%d taken=%d jobs=%d pend=%s imm=%s notes=%s dials=%s quiescent=%s"
+    (bs s.closed) (match s.flip with None -> "-" | Some e -> serr e) s.fdcl s.sys (List.length s.tears) (List.length s.taken) (List.length s.jobs) (bs s.pend) (bs s.imm)
     (String.concat "," (List.map serr s.notes))
     (String.concat "," (List.map (function None -> "ok" | Some e -> string_of_int e) s.dials))
     (bs (quiescent s))
@@ -94,6 +96,25 @@ let () =
               s := s';
               String.concat " " (List.map s_ev evs)) acts in
             Printf.printf "%s | %s\n%!" (String.concat " ; " outs) (snapshot !s)
+        | "urun" :: _ ->
+            let body = String.sub line 5 (String.length line - 5) in
+            let uact toks = match toks with
+              | ["d"; k] -> UDatagram (int_of_string k)
+              | "s" :: sid :: rest -> USess (int_of_string sid, action_of rest)
+              | ["sc"] -> UServerClose
+              | _ -> failwith ("bad udp action: " ^ String.concat " " toks) in
+            let acts = List.map (fun a -> uact (split_on ' ' a)) (split_on ';' body) in
+            let u = ref uinit in
+            let s_uev = function
+              | UEv (sid, e) -> string_of_int sid ^ "." ^ s_ev e
+              | UData sid -> string_of_int sid ^ ".data" in
+            let outs = List.map (fun a ->
+              let (u', evs) = ustep !u a in
+              u := u';
+              String.concat " " (List.map s_uev evs)) acts in
+            Printf.printf "%s | tbl=%s srv=%s\n%!" (String.concat " ; " outs)
+              (String.concat "," (List.map (fun (k, v) -> string_of_int k ^ ":" ^ string_of_int v) (!u).tbl))
+              (bs (!u).srv)
         | "log" :: evs ->
             let l = List.map ev_of evs in
             Printf.printf "%s %s\n%!" (if legal l then "legal" else "illegal") (if complete l then "complete" else "incomplete")
